@@ -313,7 +313,7 @@ type c37World struct {
 	werr   error
 
 	holder    *c37Holder // store mode: the other holder of the snapshot gate in this round
-	attempts  int        // Provide attempts seen in this round (0 = Provide not reached or failed outright; 1/99 by duration if not counted)
+	attempts  int        // Provide attempts seen in this round (0 = Provide not reached or failed outright; -1 = not counted)
 	failKinds []string   // what the failed attempts of this round ran into ("gate", "fail")
 
 	remoteID   string
@@ -560,7 +560,6 @@ func (w *c37World) Provide(dst io.WriteSeeker) error {
 }
 
 func (w *c37World) provideReal(dst io.WriteSeeker) error {
-	t0 := time.Now()
 	var cw *c37CountingWriter
 	if w.cur.Count || w.cur.Gate > 0 || w.cur.ProvFlaky > 0 {
 		cw = &c37CountingWriter{w: dst}
@@ -612,14 +611,9 @@ func (w *c37World) provideReal(dst io.WriteSeeker) error {
 	}
 	switch {
 	case cw != nil:
-		w.attempts = cw.seeks
-		if w.cur.ProvFlaky == 2 {
-			// the clean copy taken first to learn the size went to another destination
-		}
-	case time.Since(t0) < 400*time.Millisecond:
-		w.attempts = 1
+		w.attempts = cw.seeks // (ProvFlaky 2: the clean copy taken first to learn the size went to another destination)
 	default:
-		w.attempts = 99 // not counted, but it did wait for a retry
+		w.attempts = -1 // not counted (the destination was handed over as the *os.File it is)
 	}
 	for i := 0; i < gateFails; i++ {
 		w.failKinds = append(w.failKinds, "gate")
@@ -1000,8 +994,8 @@ func c37Coq(db0 []uint64, rid0 string, rdata0 []uint64, evs []c37REvent, obs []c
 				cs[j] = fmt.Sprintf("CUpload %d %s", n, c37NList(c.Content))
 			}
 		}
-		os[i] = fmt.Sprintf("{| r_calls := %s; r_err := %s; r_last := %d; r_rid := %s; r_rdata := %s; r_attempts := %d |}",
-			coqList(cs), coqBool(o.Err), o.Last, c37OptID(o.RemoteID), c37NList(o.RemoteData), o.Attempts)
+		os[i] = fmt.Sprintf("{| r_calls := %s; r_err := %s; r_last := %d; r_rid := %s; r_rdata := %s; r_attempts := %s |}",
+			coqList(cs), coqBool(o.Err), o.Last, c37OptID(o.RemoteID), c37NList(o.RemoteData), coqOpt(o.Attempts >= 0, strconv.Itoa(o.Attempts)))
 	}
 	return fmt.Sprintf("{| k_init := {| w_last := 0; w_db := %s; w_rid := %s; w_rdata := %s; w_silent := 0; w_rsilent := 0 |}; k_events := %s; k_obs := %s |}",
 		c37NList(db0), c37OptID(rid0), c37NList(rdata0), coqList(es), coqList(os))
